@@ -1,6 +1,7 @@
 package props
 
 import (
+	"math"
 	"bytes"
 	"errors"
 	"fmt"
@@ -358,13 +359,16 @@ func TestC07(t *testing.T) {
 				ntemp++
 			}
 		}
-		for _, retries := range []int{ntemp, ntemp + 1, max(ntemp-1, 0)} {
+		for _, retries := range []int{ntemp, ntemp + 1, max(ntemp-1, 0), -1} { // -1: the largest budget the type can express
 			// expected outcome by the script and the budget: every attempt offers the
 			// bytes not yet accepted; at most retries+1 attempts; a permanent error,
 			// a success or an exhausted budget ends it
 			var expect []byte
 			pos := 0
 			left := retries
+			if retries < 0 {
+				left = math.MaxInt
+			}
 			wantErr := ""
 			for _, s := range sc {
 				remaining := img[pos:]
@@ -453,7 +457,11 @@ func TestC07(t *testing.T) {
 			}
 			var nn int64
 			var err error
-			if p, bad := guard(func() { nn, err = m.WriteToWithRetry(w, uint(retries)) }); bad {
+			budget := uint(retries)
+			if retries < 0 {
+				budget = ^uint(0)
+			}
+			if p, bad := guard(func() { nn, err = m.WriteToWithRetry(w, budget) }); bad {
 				c.Fail(ev.Sig{"op": "retry-panic", "via": via}, nil, nil, "WriteToWithRetry panicked: %s", p)
 				return
 			}
@@ -470,8 +478,8 @@ func TestC07(t *testing.T) {
 			if via != "io.Writer" && assoc == nil {
 				<-mc.Closed()
 			}
-			desc := fmt.Sprintf("via %s, %d-byte message, retries=%d, script %s", via, len(img), retries, descScript(sc))
-			c.Class("%s/temps=%d/retries-vs-temps=%d/end=%s", via, ntemp, retries-ntemp, wantErr)
+			desc := fmt.Sprintf("via %s, %d-byte message, retries=%d, script %s", via, len(img), budget, descScript(sc))
+			c.Class("%s/temps=%d/retries-vs-temps=%d/end=%s", via, ntemp, min(retries-ntemp, 2), wantErr)
 			sig := func(op string) ev.Sig { return ev.Sig{"op": op, "via": via} }
 			if !bytes.Equal(got, expect) {
 				what := "differs"
